@@ -747,7 +747,7 @@ class Run:
                 ctx.violation("botpSM:crash:rand", "a botp Step function crashed in a random history (rc=%d): %s" % (rc, err[-600:]), {"stderr": err[-3000:]})
         # all TLC runs at once: the enumerations and the validation of the random histories
         jobs = [(lambda p=p: self.botp_mc(*p)) for p in plan]
-        jobs.append(lambda: self.botp_trace(rand_rows, "rand", 6 if ctx.quick else 14) if rand_rows else (0, 0))
+        jobs.append(lambda: self.botp_trace(rand_rows, "rand", 4 if ctx.quick else 14) if rand_rows else (0, 0))
         jobs.append(lambda: self.botp_selftest_trace(rand_rows))
         results = vlib.parallel(jobs, n=len(jobs))
         nh, nl = results[-2]
@@ -789,7 +789,7 @@ class Run:
                 c = cases[len(cases) // 2]
                 self.ev.sample({"botp_history": c["id"], "calls": [brief(h) for h in c["hist"]]}, cap=14)
         self.botp_report()
-        sh, sl = self.botp_trace(sample_rows, "sample", 6 if ctx.quick else 14) if sample_rows else (0, 0)
+        sh, sl = self.botp_trace(sample_rows, "sample", 3 if ctx.quick else 14) if sample_rows else (0, 0)
         self.replayed += tot_h
         self.lines_validated += nl + sl
         self.ev.cov["botp_histories_replayed"] = tot_h
